@@ -69,6 +69,34 @@ def _is_model_class(t):
     return isinstance(t, type) and (issubclass(t, Obj) or issubclass(t, ModelValue))
 
 
+class Closure(object):
+    """A nested function of the analysed code together with the scope of the call that defined it (python cells: read when the body runs)."""
+
+    def __init__(self, fnode, cells):
+        self.fnode, self.cells = fnode, cells
+
+
+class _Chain(dict):
+    """Local scope of a closure call: names it does not bind are read from the defining scope."""
+
+    def __init__(self, parent):
+        dict.__init__(self)
+        self.parent = parent
+
+    def __contains__(self, k):
+        return dict.__contains__(self, k) or k in self.parent
+
+    def __getitem__(self, k):
+        if dict.__contains__(self, k):
+            return dict.__getitem__(self, k)
+        return self.parent[k]
+
+    def get(self, k, d=None):
+        if dict.__contains__(self, k):
+            return dict.__getitem__(self, k)
+        return self.parent.get(k, d)
+
+
 class PyRaise(NotConst):
     """The evaluated code raises a Python exception (still 'not a constant' for callers that do not model exceptions)."""
 
@@ -90,7 +118,7 @@ class _Continue(Exception):
     pass
 
 
-BUILTIN_TYPES = {'list': list, 'dict': dict, 'tuple': tuple, 'str': str, 'int': int, 'set': set, 'bool': bool, 'float': float}
+BUILTIN_TYPES = {'list': list, 'dict': dict, 'tuple': tuple, 'str': str, 'int': int, 'set': set, 'bool': bool, 'float': float, 'slice': slice, 'object': object}
 
 
 class Opaque(object):
@@ -113,7 +141,7 @@ SAFE_METHODS = {
     list: {'index', 'count', 'copy'}, tuple: {'index', 'count'},
     dict: {'keys', 'values', 'items', 'get', 'copy'},
     str: {'startswith', 'endswith', 'lower', 'upper', 'join', 'split', 'format', 'strip', 'replace', 'index', 'count', 'find'},
-    set: {'union', 'copy'},
+    set: {'union', 'copy', 'intersection', 'difference', 'issubset'}, slice: {'indices'},
 }
 MUTATORS = {list: {'append', 'extend', 'insert', 'reverse', 'sort', 'pop', 'remove'},
             dict: {'update', 'setdefault', 'pop'}, set: {'add', 'update', 'discard'}}
@@ -227,8 +255,10 @@ class Evaluator(object):
                 return a // b if a % b == 0 else a / b
             if isinstance(n.op, ast.Pow) and isinstance(a, int) and isinstance(b, int) and 0 <= b < 256:
                 return a ** b
+        except NotConst:
+            raise
         except Exception as e:
-            raise NotConst('binop failed: %r' % (e,))
+            raise PyRaise('binop failed: %r' % (e,), type(e).__name__, e)
         raise NotConst('operator %s' % type(n.op).__name__)
 
     def ev_UnaryOp(self, n, loc):
@@ -340,7 +370,37 @@ class Evaluator(object):
         return out
 
     def ev_Lambda(self, n, loc):
-        return Opaque('lambda', n)
+        o = Opaque('lambda', n)
+        o.closure = loc            # the defining scope itself (cells), not a snapshot
+        return o
+
+    def call_value(self, tgt, args, kw=None):
+        """Call a function value of the analysed code: a def, a closure, a lambda, a checker-side stand-in or model class."""
+        kw = kw or {}
+        if isinstance(tgt, Native):
+            return tgt.fn(*args, **kw)
+        if isinstance(tgt, ast.FunctionDef):
+            return self.call_user(tgt, args, kw)
+        if isinstance(tgt, Closure):
+            return self.call_user(tgt.fnode, args, kw, outer=tgt.cells)
+        if isinstance(tgt, Opaque) and isinstance(tgt.node, ast.Lambda) and not kw:
+            lam = tgt.node
+            params = [p.arg for p in lam.args.args]
+            if len(params) != len(args) or lam.args.vararg or lam.args.kwarg:
+                raise NotConst('lambda called with %d arguments' % len(args))
+            outer = getattr(tgt, 'closure', None)
+            l2 = _Chain(outer) if outer is not None else {}
+            for p_, a_ in zip(params, args):
+                l2[p_] = a_
+            return self.ev(lam.body, l2)
+        if _is_model_class(tgt):
+            try:
+                return tgt(*args, **kw)
+            except NotConst:
+                raise
+            except Exception as e:
+                raise PyRaise('constructor failed: %r' % (e,), type(e).__name__, e)
+        raise NotConst('call of a %s value' % type(tgt).__name__)
 
     def ev_Call(self, n, loc):
         f = n.func
@@ -395,6 +455,8 @@ class Evaluator(object):
                 return tgt.fn(*args, **kw)
             if isinstance(tgt, ast.FunctionDef):
                 return self.call_user(tgt, args, kw)
+            if isinstance(tgt, Closure) or (isinstance(tgt, Opaque) and isinstance(tgt.node, ast.Lambda) and f.id not in PURE_BUILTINS):
+                return self.call_value(tgt, args, kw)
             if _is_model_class(tgt):
                 try:
                     return tgt(*args, **kw)            # a model class of the checker (usable with isinstance and as constructor)
@@ -406,6 +468,8 @@ class Evaluator(object):
             recv = self.ev(f.value, loc)
             if isinstance(recv, Obj) and f.attr in recv.__dict__.get('_methods', {}):
                 fn_ = recv.__dict__['_methods'][f.attr]
+                if not isinstance(fn_, ast.FunctionDef):
+                    return self.call_value(fn_, [recv] + args, kw)      # a wrapped method (name = decorator(name) in the class body)
                 if f.attr in recv.__dict__.get('_static', ()):
                     return self.call_user(fn_, args, kw)           # name = staticmethod(name): not bound
                 if recv.__dict__.get('_isclass') and f.attr not in recv.__dict__.get('_meta_methods', ()) \
@@ -426,6 +490,8 @@ class Evaluator(object):
                     if f.attr in ('keys', 'values', 'items'):
                         r = list(r)
                     return r
+            if isinstance(recv, dict) and f.attr == 'setdefault' and 1 <= len(args) <= 2:
+                return recv.setdefault(self._hashable(args[0]), *args[1:])
             if isinstance(recv, (list, dict)) and f.attr == 'pop' or (isinstance(recv, set) and f.attr == 'pop' and len(recv) == 1):
                 try:
                     return recv.pop(*args)
@@ -450,7 +516,7 @@ class Evaluator(object):
             return Opaque('call:%s' % ast.unparse(f), n)
         raise NotConst('call %s' % ast.unparse(f))
 
-    def call_user(self, fnode, args, kw=None):
+    def call_user(self, fnode, args, kw=None, outer=None):
         """Call a method of the analysed class (plain positional parameters, body in the evaluable subset)."""
         params = [a.arg for a in fnode.args.args]
         defaults = fnode.args.defaults
@@ -458,9 +524,13 @@ class Evaluator(object):
         kw = dict(kw or {})
         if len(args) > len(params) or fnode.args.vararg or fnode.args.kwarg or any(k not in params for k in kw):
             raise NotConst('call of %s with %d arguments' % (fnode.name, len(args)))
-        scope = dict(zip(params, args))
+        scope = _Chain(outer) if outer is not None else {}
+        bound = set()
+        for p_, a_ in zip(params, args):
+            scope[p_] = a_
+            bound.add(p_)
         for i, p_ in enumerate(params):
-            if p_ in scope:
+            if p_ in bound:
                 continue
             if p_ in kw:
                 scope[p_] = kw[p_]
@@ -610,15 +680,18 @@ class Evaluator(object):
                 return
             if isinstance(c, ast.Call) and isinstance(c.func, ast.Name):
                 tgt = (loc or {}).get(c.func.id, self.env.get(c.func.id))
-                if isinstance(tgt, (Native, ast.FunctionDef)):
+                if isinstance(tgt, (Native, ast.FunctionDef, Closure)):
                     self.ev(c, loc)
                     return
             raise NotConst('expression statement')
         elif isinstance(st, (ast.Pass, ast.Import, ast.ImportFrom)):
             return
         elif isinstance(st, ast.FunctionDef):
-            # a local helper: callable by name from the enclosing body (it sees the module environment, not the enclosing locals)
-            scope[st.name] = st
+            # a local helper: callable by name from the enclosing body; when it reads names of the enclosing call it is a closure over that scope
+            if scope is not self.env and _free_names(st) & set(scope.keys() if not isinstance(scope, _Chain) else list(dict.keys(scope)) + list(scope.parent.keys())):
+                scope[st.name] = Closure(st, scope)
+            else:
+                scope[st.name] = st
         elif isinstance(st, ast.Return):
             raise _Return(self.ev(st.value, loc) if st.value is not None else None)
         elif isinstance(st, ast.Raise):
@@ -648,6 +721,15 @@ class Evaluator(object):
                 self.exec_stmts(st.orelse, scope)
         else:
             raise NotConst('statement %s' % type(st).__name__)
+
+
+def _free_names(fnode):
+    params = set(a.arg for a in fnode.args.args)
+    stores, loads = set(), set()
+    for n in ast.walk(fnode):
+        if isinstance(n, ast.Name):
+            (stores if isinstance(n.ctx, ast.Store) else loads).add(n.id)
+    return loads - params - stores
 
 
 def _as_load(t):
